@@ -5,6 +5,7 @@ every run), honest synthesis (`h = none`).
 -/
 import Decaf.Props.C13
 import Decaf.Lemmas.Formulas.R1cs
+import Decaf.Lemmas.Formulas.Lazy
 import Decaf.Lemmas.Formulas.OpForms
 
 namespace C13.Translated
@@ -54,5 +55,48 @@ theorem gadget_operator_forms (P Q : E) :
     (∀ f ∈ (Gen.OpForms.addForms : List (String × (E → E → E))), f.2 P Q = P + Q) ∧
     (∀ f ∈ (Gen.OpForms.subForms : List (String × (E → E → E))), f.2 P Q = P - Q) :=
   ⟨fun f hf => Formulas.OpForms.addForms_correct f hf P Q, fun f hf => Formulas.OpForms.subForms_correct f hf P Q⟩
+
+/-! ### the lazily evaluated variable, on the translated `LazyElementVar::element` / `::encoding` -/
+
+/-- a sequence of forcings through the translated bodies (one hint per emitted gadget) -/
+def runCode : List R1cs.Force → R1cs.Lazy → List R1cs.Hint → R1cs.Lazy × List R1cs.Emitted
+  | [], st, _ => (st, [])
+  | f :: fs, st, hs =>
+    let r := Code.lazyStep st f (hs.headD none)
+    let hs' := if r.2.1 = .nothing then hs else hs.drop 1
+    let rest := runCode fs r.1 hs'
+    (rest.1, r.2.1 :: rest.2)
+
+theorem runCode_eq (fs : List R1cs.Force) (st : R1cs.Lazy) (hs : List R1cs.Hint) : runCode fs st hs = C13.run fs st hs := by
+  induction fs generalizing st hs with
+  | nil => rfl
+  | cons f fs ih => simp only [runCode, C13.run, Code.lazyStep_eq, ih]
+
+/-- **at most one gadget is ever synthesised** by the translated code, for every order and number of forcings -/
+theorem lazy_emits_at_most_once (fs : List R1cs.Force) (st : R1cs.Lazy) (hs : List R1cs.Hint) :
+    ((runCode fs st hs).2.filter (· ≠ .nothing)).length ≤ 1 := by
+  rw [runCode_eq]; exact C13.lazy_emits_at_most_once fs st hs
+
+/-- a value, once defined, is never changed by a later forcing of the translated code -/
+theorem lazy_preserves_values (st : R1cs.Lazy) (f : R1cs.Force) (h : R1cs.Hint) :
+    (∀ s, st.encVal = some s → (Code.lazyStep st f h).1.encVal = some s) ∧
+    (∀ p, st.elemVal = some p → (Code.lazyStep st f h).1.elemVal = some p) := by
+  rw [Code.lazyStep_eq]; exact C13.step_preserves_values st f h
+
+/-- what `element()` / `encoding()` hand back is the value now stored in the variable -/
+theorem lazy_returns_stored (st : R1cs.Lazy) (h : R1cs.Hint) :
+    (Code.lazyStep st .elem h).1.elemVal = some (Gen.Lazy.element st h).2.2.2 ∧
+    (Code.lazyStep st .enc h).1.encVal = some (Gen.Lazy.encoding st h).2.2.2 := by
+  rw [Code.lazyStep_eq]; exact ⟨Code.lazy_element_value st h, Code.lazy_encoding_value st h⟩
+
+/-- forcing the element of a variable made from an encoding synthesises exactly the translated decoding gadget on it,
+and forcing the encoding of a variable made from an element exactly the translated encoding gadget -/
+theorem lazy_forces_gadget (s x y : ℕ) (h : R1cs.Hint) :
+    Code.lazyStep (.enc s) .elem h = (.both s (Code.r1csDecompress s h).2.1 (Code.r1csDecompress s h).2.2, .decompress, (Code.r1csDecompress s h).1) ∧
+    Code.lazyStep (.elem x y) .enc h = (.both (Code.r1csCompress x y h).2 x y, .compress, (Code.r1csCompress x y h).1) := by
+  rw [Code.lazyStep_eq, Code.r1csDecompress_eq, Code.r1csCompress_eq]
+  constructor
+  · simp only [R1cs.Lazy.step]
+  · simp only [R1cs.Lazy.step]
 
 end C13.Translated
